@@ -938,7 +938,7 @@ def run(idx, rep, tier):
         _gf = k.cfg(_ff)
         _cc = [n for n, c in k.calls_named(_ff, _callee)]
         _tst = [a.id for a in _gf.nodes if a.kind == 'atom' and
-                dotted(a.ast) in ('self._transport',)]
+                atom_truthy_of('self._transport')(a) is not None]
         _nsib += len(_cc)
         for _n in _cc:
             _bad = None
